@@ -38,6 +38,13 @@ pub struct TxCfg {
     /// (server only) an earlier peer's SYN (MSS 1460, window scale 7) was answered and then
     /// reset in SYN-RECEIVED: the socket went back to LISTEN by itself, without any API call
     pub synrcvd_rst: bool,
+    /// (client only) simultaneous open: the peer's bare SYN (with its options) crosses ours; the
+    /// socket goes SYN-SENT -> SYN-RECEIVED, the peer then acknowledges our SYN
+    pub simul: bool,
+    /// (server only) before the peer's handshake-completing ACK, a keep-alive-like segment
+    /// (sequence number one below RCV.NXT, one garbage octet) makes the socket send a bare ACK
+    /// from SYN-RECEIVED - a non-SYN segment before the connection is synchronized
+    pub hs_probe: bool,
 }
 
 #[derive(Clone, Debug, PartialEq)]
@@ -203,6 +210,13 @@ impl Harness for Tx {
             // with a large peer shift the handshake ACK's window field is small, so that the
             // highest right edge the socket is ever given stays below the amount of data queued
             let hs_win: u16 = if cfg.peer_ws.map_or(false, |s| s >= 8) { 1 } else { 1000 };
+            if cfg.hs_probe {
+                let probe = build_seg(p, Some(t.last_ack), 0, hs_win, if cfg.peer_ts { &TS_OPT } else { &[] }, &[0]);
+                t.deliver(probe);
+                if t.w.state() != State::SynReceived {
+                    t.pending.push(Viol::new("MACHINERY/hs-probe", format!("state {} after the probe", t.w.state())));
+                }
+            }
             let a = build_seg(p.wrapping_add(1), Some(t.last_ack), 0, hs_win, if cfg.peer_ts { &TS_OPT } else { &[] }, &[]);
             t.acks_sent.push((t.last_ack, hs_win));
             t.deliver(a);
@@ -214,7 +228,15 @@ impl Harness for Tx {
             let iss = t.mon.iss.unwrap_or(0);
             t.last_ack = iss.wrapping_add(1);
             t.acks_sent.push((t.last_ack, 1000));
-            t.deliver(build_seg(p, Some(t.last_ack), wc::TCP_SYN, 1000, &opts, &[]));
+            if cfg.simul {
+                t.deliver(build_seg(p, None, wc::TCP_SYN, 1000, &opts, &[]));
+                if t.w.state() != State::SynReceived {
+                    t.pending.push(Viol::new("MACHINERY/simultaneous-open", format!("state {} after the crossing SYN", t.w.state())));
+                }
+                t.deliver(build_seg(p.wrapping_add(1), Some(t.last_ack), 0, 1000, if cfg.peer_ts { &TS_OPT } else { &[] }, &[]));
+            } else {
+                t.deliver(build_seg(p, Some(t.last_ack), wc::TCP_SYN, 1000, &opts, &[]));
+            }
         }
         if t.w.state() != State::Established {
             t.pending.push(Viol::new("MACHINERY/handshake-failed", format!("state {}", t.w.state())));
@@ -360,7 +382,7 @@ impl Harness for Tx {
 pub fn tx_configs(tier: Tier) -> Vec<(TxCfg, usize)> {
     let (mut d, dbig) = if tier == Tier::Quick { (6, 2) } else { (8, 3) };
     if let Ok(x) = std::env::var("TX_D") { d = x.parse().unwrap(); }
-    let base = TxCfg { name: "base", tx: 64, rx: 64, len: 40, chunk: 16, peer_mss: Some(100), peer_ws: None, server: true, mtu: 1500, peer_isn: 0xffff_fff0, reuse: false, ts: false, peer_ts: false, bp: false, cc: 0, synrcvd_rst: false };
+    let base = TxCfg { name: "base", tx: 64, rx: 64, len: 40, chunk: 16, peer_mss: Some(100), peer_ws: None, server: true, mtu: 1500, peer_isn: 0xffff_fff0, reuse: false, ts: false, peer_ts: false, bp: false, cc: 0, synrcvd_rst: false, simul: false, hs_probe: false };
     vec![
         (base.clone(), d),
         (TxCfg { name: "mss-absent", peer_mss: None, len: 30, chunk: 30, ..base.clone() }, d),
@@ -381,6 +403,10 @@ pub fn tx_configs(tier: Tier) -> Vec<(TxCfg, usize)> {
         (TxCfg { name: "synrcvd-rst-then-mss-absent", synrcvd_rst: true, peer_mss: None, tx: 2048, len: 1300, chunk: 1300, ..base.clone() }, d.min(5)),
         (TxCfg { name: "synrcvd-rst-then-bigrx-no-ws", synrcvd_rst: true, rx: 70000, len: 20, chunk: 20, ..base.clone() }, dbig),
         // congestion-controlled senders (the congestion window limits below the peer's window)
+        (TxCfg { name: "simultaneous-open-mss-200", simul: true, server: false, peer_mss: Some(200), tx: 1024, len: 700, chunk: 700, ..base.clone() }, d.min(5)),
+        (TxCfg { name: "simultaneous-open-mss-48-ws2", simul: true, server: false, peer_mss: Some(48), peer_ws: Some(2), tx: 256, len: 200, chunk: 200, ..base.clone() }, d.min(5)),
+        (TxCfg { name: "bigrx-hs-probe-peer-ws1", hs_probe: true, rx: 100000, tx: 4096, len: 2500, chunk: 2500, peer_mss: Some(536), peer_ws: Some(1), ..base.clone() }, dbig),
+        (TxCfg { name: "hs-probe-small", hs_probe: true, peer_ws: Some(3), ..base.clone() }, d.min(5)),
         (TxCfg { name: "reno", cc: 1, tx: 256, len: 200, chunk: 100, peer_mss: Some(48), ..base.clone() }, d),
         (TxCfg { name: "cubic", cc: 2, tx: 256, len: 200, chunk: 100, peer_mss: Some(48), ..base.clone() }, d),
         // device back-pressure while the application writes / while timers fire
